@@ -12,17 +12,17 @@ import (
 )
 
 func init() {
-	register(&Rule{Name: "ERR-CHAIN-WRITE", Floor: 6, Run: ruleChainWrite,
+	register(&Rule{Name: "ERR-CHAIN-WRITE", Floor: 3, Run: ruleChainWrite,
 		Doc: "an error of os.WriteFile is returned by every function between the write and the CLI, where it ends the process with a non-zero status (a failed write is a failed run)"})
 	register(&Rule{Name: "ERR-CHAIN-EXT", Floor: 8, Run: ruleChainExt,
 		Doc: "a content-less extension makes generation fail: the override-needed builder always returns an error, every Builder/Compile error is returned up to BulkUpdate and the CLI; every v1 Builder hands the common handler's builder back unchanged"})
-	register(&Rule{Name: "ERR-CHAIN-OPEN", Floor: 4, Run: ruleChainOpen,
+	register(&Rule{Name: "ERR-CHAIN-OPEN", Floor: 2, Run: ruleChainOpen,
 		Doc: "the duplicate-alias error is returned through the directory walk and Open up to the CLI, which exits non-zero before planning"})
-	register(&Rule{Name: "TOLERANT", Floor: 4, Run: ruleTolerant,
+	register(&Rule{Name: "TOLERANT", Floor: 2, Run: ruleTolerant,
 		Doc: "a PEM file that cannot be decoded completely does not abort the import and the parts decoded before the error are kept; a file that does not parse as a configuration is skipped by the directory walk"})
-	register(&Rule{Name: "PANIC-INV", Floor: 5, Run: rulePanicInv, Fixture: "fixture.undischargedPanic",
+	register(&Rule{Name: "PANIC-INV", Floor: 2, Run: rulePanicInv, Fixture: "fixture.undischargedPanic",
 		Doc: "every explicit panic reachable from the entry points (ParseConfig, Open, PlanBulkUpdate, BulkUpdate, ReadPem, the sign command) is discharged by a named invariant; a new reachable panic is a violation"})
-	register(&Rule{Name: "OID-VALID", Floor: 3, Run: ruleOidValid,
+	register(&Rule{Name: "OID-VALID", Floor: 1, Run: ruleOidValid,
 		Doc: "every custom extension leaving the extension parser passed the same OID validator its Oid() method panics on, with the validator's error returned"})
 	register(&Rule{Name: "YEAR-RANGE", Floor: 2, Run: ruleYearRange,
 		Doc: "the validity parser returns successfully only when the years of From and Until are within 0..9999 (json.Marshal of the hash and X.509 cannot express others)"})
@@ -304,13 +304,8 @@ func ruleChainExt(c *Ctx, r *Rep) {
 func ruleChainOpen(c *Ctx, r *Rep) {
 	// the walk callback: the closure handed to fs.WalkDir
 	var cb, walker *ssa.Function
-	for fn, cis := range c.funcsCalling("io/fs.WalkDir") {
-		for _, ci := range cis {
-			if mc, ok := unwrapConv(ci.Common().Args[2]).(*ssa.MakeClosure); ok {
-				cb = mc.Fn.(*ssa.Function)
-				walker = fn
-			}
-		}
+	for f, w := range c.walkCallbacks() {
+		cb, walker = f, w
 	}
 	if cb == nil {
 		r.Undecided("anchor:walk-callback", "", "no closure handed to fs.WalkDir")
@@ -334,17 +329,24 @@ func ruleChainOpen(c *Ctx, r *Rep) {
 	}
 	// the importer: the module method the callback calls with a CertificateContent argument
 	var importer *ssa.Function
-	for _, ci := range callsIn(cb) {
-		f := ci.Common().StaticCallee()
-		if f == nil || !c.InModule(f) || errResultIndex(f.Signature) < 0 {
-			continue
-		}
-		for _, p := range f.Params {
-			if strings.HasSuffix(typeShort(c, p.Type()), "CertificateContent") {
-				importer = f
+	var findImporter func(from *ssa.Function, d int)
+	findImporter = func(from *ssa.Function, d int) {
+		for _, ci := range callsIn(from) {
+			f := ci.Common().StaticCallee()
+			if f == nil || !c.InModule(f) || errResultIndex(f.Signature) < 0 || f.Blocks == nil {
+				continue
+			}
+			for _, p := range f.Params {
+				if strings.HasSuffix(typeShort(c, p.Type()), "CertificateContent") {
+					importer = f
+				}
+			}
+			if importer == nil && d < 2 && f.Pkg == cb.Pkg {
+				findImporter(f, d+1) // the dispatch on the configuration's type may sit in a helper of the callback
 			}
 		}
 	}
+	findImporter(cb, 0)
 	if importer == nil {
 		r.Undecided("anchor:config-importer", "", "the walk callback calls no module function taking a CertificateContent")
 		return
@@ -686,21 +688,18 @@ func dischargePanic(c *Ctx, fk string, fn *ssa.Function, p *ssa.Panic) (bool, st
 			}
 			n++
 			for _, ret := range returnsOf(m) {
-				for _, pe := range phiEdges(retResults(ret)[0], ret.Block()) {
-					switch x := pe.Val.(type) {
-					case *ssa.Const:
-						if x.Value != nil {
-							return false, "non-nil constant result"
-						}
+				for _, kind := range dynamicKinds(c, retResults(ret)[0], 0) {
+					switch {
+					case kind == "nil":
 						if !returnsNonNilError(ret) {
 							return false, "nil result with nil error at " + c.Pos(ret.Pos())
 						}
-					case *ssa.MakeInterface:
-						if !asserted[typeShort(c, x.X.Type())] {
-							return false, c.FuncKey(m) + " returns " + typeShort(c, x.X.Type()) + ", which the walk callback does not handle"
-						}
+					case asserted[kind]:
 					default:
-						return false, "result of unknown shape at " + c.Pos(ret.Pos())
+						if _, isIface := retResults(ret)[0].Type().Underlying().(*types.Interface); isIface && kind == typeShort(c, retResults(ret)[0].Type()) {
+							return false, "result of unknown shape at " + c.Pos(ret.Pos())
+						}
+						return false, c.FuncKey(m) + " returns " + kind + ", which the walk callback does not handle"
 					}
 				}
 			}
@@ -1051,11 +1050,13 @@ func panicRole(c *Ctx, fn *ssa.Function) string {
 			}
 		}
 	}
-	for _, cis := range c.funcsCalling("io/fs.WalkDir") {
-		for _, ci := range cis {
-			if mc, ok := unwrapConv(ci.Common().Args[2]).(*ssa.MakeClosure); ok && mc.Fn == ssa.Value(fn) {
-				return "filesystem.importFiles$1"
-			}
+	for cb := range c.walkCallbacks() {
+		if cb == fn {
+			return "filesystem.importFiles$1"
+		}
+		// a helper only the callback calls (the dispatch on the configuration's type split out of it)
+		if callers := c.Graph().Callers(fn); len(callers) == 1 && callers[0] == cb {
+			return "filesystem.importFiles$1"
 		}
 	}
 	return c.FuncKey(fn)
